@@ -641,3 +641,66 @@ def rule_sqrt_domain(repo, rep):
                   'known to exceed -tol (the PSD test), an entry in '
                   '[-tol, 0) gives NaN' % ast.unparse(arg)[:60])
   rep.floor('square roots in components_from_metric', n, 2)
+
+
+def rule_no_destructive_option(repo, rep):
+  """scipy.linalg routines called with overwrite_a / overwrite_b / ... = True
+  may destroy their input (LAPACK works in place when the memory layout
+  allows: for Fortran-ordered arrays, not for the C-ordered ones the tests
+  use).  The argument must then be dead: not read, returned or stored
+  afterwards."""
+  R = 'R-EFFECT:no-destructive-library-option-on-live-value'
+  rep.rule(R, 'no library call asks for its input to be overwritten '
+           '(overwrite_a / overwrite_b / overwrite_x / overwrite_input / '
+           'overwrite_data = True) on a value that is used afterwards: the '
+           'content is destroyed only for some memory layouts (Fortran order), '
+           'so the tests on C-ordered arrays cannot see it')
+  n = 0
+  for f in repo.all_functions():
+    for call in [c for c in ast.walk(f.node) if isinstance(c, ast.Call)]:
+      kws = [k for k in call.keywords if k.arg and
+             k.arg.startswith('overwrite_') and not (
+                 isinstance(k.value, ast.Constant) and not k.value.value)]
+      if not kws:
+        continue
+      n += 1
+      key = '%s:%s' % (f.key, ast.unparse(call)[:50])
+      names = [a.id for a in call.args if isinstance(a, ast.Name)]
+      live = []
+      after = False
+      # statements in source order after the call's own statement
+      own = None
+      for st in ast.walk(f.node):
+        if isinstance(st, ast.stmt) and any(x is call for x in ast.walk(st)) \
+                and not isinstance(st, (ast.For, ast.While, ast.If, ast.With,
+                                        ast.Try, ast.FunctionDef)):
+          own = st
+      for st in ast.walk(f.node):
+        if not isinstance(st, ast.stmt) or own is None:
+          continue
+        if getattr(st, 'lineno', 0) > getattr(own, 'end_lineno', 0):
+          for x in ast.walk(st):
+            if isinstance(x, ast.Name) and isinstance(x.ctx, ast.Load) and \
+                    x.id in names:
+              live.append((x.id, st))
+      in_loop = any(isinstance(p_, (ast.For, ast.While)) and
+                    any(x is call for x in ast.walk(p_))
+                    for p_ in ast.walk(f.node))
+      fresh = all(isinstance(a, ast.Call) and isinstance(
+          a.func, ast.Attribute) and a.func.attr in ('copy', 'astype')
+          for a in call.args[:1]) and bool(call.args)
+      if fresh and not names:
+        rep.derived(R, key, site(f, call))
+        continue
+      if live or in_loop or not names:
+        why = ('%s is read again at line %d' % (live[0][0], live[0][1].lineno)
+               if live else 'the call is inside a loop' if in_loop else
+               'the overwritten argument is not a plain local')
+        rep.refuted(R, key, site(f, call), '%s asks the library to '
+                    'overwrite its input, but %s: for a Fortran-ordered '
+                    'array the later use sees destroyed content'
+                    % (ast.unparse(call)[:60], why))
+      else:
+        rep.derived(R, key, site(f, call))
+  if n == 0:
+    rep.derived(R, 'package', '', sample=dict(rule=R, calls=0))
